@@ -92,6 +92,17 @@ def probe_assign(decl, probe, o):
     for i, v in enumerate(decl['vars']):
         for c, val in enumerate(probe['V'][i]):
             a[('v', i, c)] = fl(val)
+    if m['kind'] == 'DC':
+        M = m['M']; deg = m['degree']
+        for k in range(N):
+            for l in range(M):
+                for i in range(len(decl['states'])):
+                    if l >= 1: a[('xi', i, k * M + l)] = fl(probe['XI'][k][l][i])
+                    for j in range(deg):
+                        a[('xr', i, (k * M + l) * deg + j)] = fl(probe['XR'][k][l][j][i])
+                for i in range(len(decl['algs'])):
+                    for j in range(deg):
+                        a[('zr', i, (k * M + l) * deg + j)] = fl(probe['ZR'][k][l][j][i])
     if decl['T']['kind'] == 'free': a[('T', 0, 0)] = fl(probe['T'])
     if decl['t0']['kind'] == 'free': a[('t0', 0, 0)] = fl(probe['t0'])
     g = m['grid']
@@ -123,10 +134,12 @@ def replay(rec):
     f, by_cid, recs = slacks_by_cid(o, xv)
 
     # ---- dynamics rows (C01.a): equality rows without a cid that involve states
-    dyn = [abs(r['vals'][0]) for r in recs if r['cid'] is None and r['kind'] == 'eq' and 'x' in r['classes']]
+    DYN = {'x', 'xi', 'xr', 'zr'}
+    isdyn = lambda r: r['cid'] is None and r['kind'] == 'eq' and bool(DYN & set(r['classes']))
+    dyn = [abs(r['vals'][0]) for r in recs if isdyn(r)]
     pg = [v for gk in pred['gaps'] for v in gk]
     st, det = bag_compare(dyn, pg, absval=True)
-    res.append(('C01.a', st, det))
+    res.append(('C02.rows' if m['kind'] == 'DC' else 'C01.a', st, det))
 
     # ---- declared constraints (C04): per cid bag of slacks
     for pc in pred['cons']:
@@ -145,12 +158,12 @@ def replay(rec):
             res.append(('C04.g', 'mismatch', 'rows tagged %r not declared' % cid))
     # nothing else: rows without cid are dynamics equalities, or involve only horizon/grid variables
     for r in recs:
-        if r['cid'] is None and not (r['kind'] == 'eq' and 'x' in r['classes']):
+        if r['cid'] is None and not isdyn(r):
             if set(r['classes']) - {'T', 't0', 'tn', 'Tl'} or not r['classes']:
                 res.append(('C04.g', 'mismatch', 'unexplained row %d kind=%s deps=%s' % (r['row'], r['kind'], r['classes'])))
     # ---- grid rows (C06.f/g): all rows that involve only horizon / grid variables hold  <=>  declared feasibility
     if 'gridfeas' in pred:
-        grows = [r for r in recs if r['cid'] is None and not (r['kind'] == 'eq' and 'x' in r['classes'])
+        grows = [r for r in recs if r['cid'] is None and not isdyn(r)
                  and r['classes'] and not (set(r['classes']) - {'T', 't0', 'tn', 'Tl'})]
         feas = all((abs(r['vals'][0]) <= 1e-9) if r['kind'] == 'eq' else all(v >= -1e-9 for v in r['vals']) for r in grows)
         res.append(('C06.f', 'ok' if feas == bool(pred['gridfeas']) else 'mismatch',
@@ -173,7 +186,7 @@ def replay(rec):
             else:
                 kw = {}
                 if rd.get('refine'): kw['refine'] = rd['refine']
-                fn = sample_fn(o, mx(b, rd['e']), rd['grid'], **kw)
+                fn = sample_fn(o, mx(b, rd['e']), 'integrator_roots' if rd['grid'] == 'roots' else rd['grid'], **kw)
                 t, v = fn(xv, o.pvec)
                 t = np.array(t).reshape(-1); v = np.array(v).reshape(-1)
                 st, det = seq_compare(list(t), pr['t'])
